@@ -617,3 +617,22 @@ def offending_writers(F, field, allowed, adt=None):
             else:
                 work.append((cn, cg))
     return bad, set(direct)
+
+
+def rc_possible(F, p, term, adt):
+    """Variants a reason / return code value may have on the path: its discriminant constraints intersected with what the
+    path learnt from `is_success()` / `is_failure()` on that value (success = wire value below 0x80; for the v3.1.1 CONNACK
+    return code only 0 accepts)."""
+    poss = set(possible(F, p, term, adt))
+    dm = {n: d for n, d in F.discr_map(adt).items()}
+    def success(n):
+        d = dm.get(n)
+        return (d == 0) if adt.endswith("ConnectReturnCode") else (d is not None and d < 0x80)
+    for e in p.effects:
+        if e[0] == "call" and e[1].split("::")[-1] in ("is_success", "is_failure") and e[3] and e[3][0] == ("sym", term):
+            t = truth(p, e)
+            if t is None:
+                continue
+            want_success = t if e[1].endswith("is_success") else (not t)
+            poss = {n for n in poss if success(n) == want_success}
+    return poss
